@@ -119,6 +119,51 @@ theorem C19_prototype_inheritance {α : Type} (cs : List PClass) (f : PClass →
   | some v => rfl
   | none => cases c.base <;> rfl
 
+open Desper.Logic in
+/-- Iteration is lazy.  Over the types captured when `__iter__` was called, the components come out
+one per type, in order, and the i-th one is built by the source that is in charge of its type in the
+state reached after the effects of the builders of the components before it — whatever those
+builders (init methods, `init_methods` factories, component constructors; `E`) did to the instance
+or to the classes: entries of `init_methods` set or deleted, `init_prefix`, `component_types`,
+init functions rebound.  That state is the fold of `applyEffs` over the earlier steps. -/
+theorem C19_prototype_lazy (E : Nat → Source → List Eff) (names : Nat → String) (p : Nat) (s : PState)
+    (ts : List Nat) :
+    (buildFrom E names p s ts).2.map (·.1) = ts ∧
+    (∀ i (h : i < ts.length),
+      (buildFrom E names p s ts).2[i]? =
+        some (ts[i], sourceS (buildFrom E names p s (ts.take i)).1 names p ts[i])) ∧
+    (∀ t rest, (buildFrom E names p s (t :: rest)).1 =
+      (buildFrom E names p (applyEffs p s (E t (sourceS s names p t))) rest).1) := by
+  refine ⟨?_, ?_, fun _ _ => rfl⟩
+  · induction ts generalizing s with
+    | nil => rfl
+    | cons t ts ih => simp only [buildFrom, List.map_cons, nextStep]; rw [ih]
+  · induction ts generalizing s with
+    | nil => intro i h; simp at h
+    | cons t ts ih =>
+      intro i h
+      cases i with
+      | zero => simp [buildFrom, nextStep]
+      | succ i =>
+        have := ih (nextStep E names p s t).1 i (by simpa using h)
+        simpa [buildFrom, List.take_succ_cons] using this
+
+open Desper.Logic in
+/-- The static statement `C19_prototype` is the special case in which nothing acts on the prototype:
+`list(P())` on a new instance is `build`, and the state is left as it was. -/
+theorem C19_prototype_no_effects (cs : List PClass) (names : Nat → String) (p : Nat)
+    (E : Nat → Source → List Eff) (hE : ∀ t src, E t src = []) :
+    buildLazy E names p { cs := cs } = ({ cs := cs }, build cs names p) := by
+  have hsrc : ∀ t, sourceS { cs := cs } names p t = source cs names p t := by
+    intro t
+    simp [sourceS, source, imOfS, imOf, methodOfS, prefixOfS, Dict.get?]
+  have hb : ∀ ts, buildFrom E names p { cs := cs } ts = ({ cs := cs }, ts.map fun t => (t, source cs names p t)) := by
+    intro ts
+    induction ts with
+    | nil => rfl
+    | cons t ts ih => simp [buildFrom, nextStep, hE, applyEffs, hsrc, ih]
+  simp [buildLazy, typesOfS, hb, build]
+
 /-! non-vacuity -/
 private def exU : Universe :=
   { classes := [{ bases := [], isCtrl := true }, { bases := [] }], objTy := fun o => some (o % 2),
@@ -137,4 +182,20 @@ example :
                              { base := some 0, types := none, pfx := none, im := none, methods := [] }]
     build cs (fun t => ["A", "B", "C"].getD t "") 1 =
       [(0, .initMethods "f"), (1, .method "g"), (2, .default)] := by
+  decide
+
+open Desper.Logic in
+/-- a real effect: `init_A` (method `ga`) registers a factory for `B` in the instance's own table and
+switches to the `heavy_` family of init methods; the factory of `B` removes the entry of `C`.  Built
+eagerly ("resolve everything first") the list would be ga, gb, fc. -/
+example :
+    let cs : List PClass := [{ base := none, types := some [0, 1, 2], pfx := none, im := some [(2, "fc")],
+                               methods := [("init_A", "ga"), ("init_B", "gb"), ("heavy_C", "hc")] }]
+    let names := fun t => ["A", "B", "C"].getD t ""
+    let E : Nat → Source → List Eff := fun t src =>
+      if t = 0 ∧ src = .method "ga" then [.instIm [(2, "fc")], .imSet 1 "fb", .instPrefix "heavy_"]
+      else if t = 1 ∧ src = .initMethods "fb" then [.imDel 2]
+      else []
+    (buildLazy E names 0 { cs := cs }).2 = [(0, .method "ga"), (1, .initMethods "fb"), (2, .method "hc")] ∧
+    build cs names 0 = [(0, .method "ga"), (1, .method "gb"), (2, .initMethods "fc")] := by
   decide
